@@ -33,6 +33,19 @@ def py_idx(ix):
 REJECT = (IndexError,)
 
 
+def zero_width_ellipsis(ixj, shape, flat, om_res, np_res):
+    """Known finding: an Ellipsis expanding to zero axes between advanced (int/array) entries, at least
+    one of them an array; OpenMDAO and NumPy then select the same elements but order/shape differ."""
+    if ixj['t'] != 'ell' or flat or len(ixj['pre']) + len(ixj['post']) != len(shape):
+        return False
+    adv = lambda its: any(i['t'] in ('int', 'arr') for i in its)
+    arr = any(i['t'] == 'arr' for i in ixj['pre'] + ixj['post'])
+    accepted = isinstance(om_res, list) and isinstance(np_res, list)
+    return bool(adv(ixj['pre']) and adv(ixj['post']) and arr and accepted and
+                sorted(om_res[0]) == sorted(np_res[0]) and sorted(om_res[1]) == sorted(np_res[1]))
+
+
+
 def handle(c):
     if c['kind'] == 'a2s':
         arr = np.array(c['arr'], dtype=int)
@@ -101,16 +114,8 @@ def handle(c):
                 idx, shape, flat, type(exc).__name__, str(exc)[:100], np_res)
     if not ok:
         sig = c.get('class', '')
-        ix = c['idx']
-        if ix['t'] == 'ell' and len(ix['pre']) + len(ix['post']) == len(shape) and not flat:
-            adv = lambda its: any(i['t'] in ('int', 'arr') for i in its)
-            arr = any(i['t'] == 'arr' for i in ix['pre'] + ix['post'])
-            accepted = isinstance(om_res, list) and isinstance(np_res, list)
-            if adv(ix['pre']) and adv(ix['post']) and arr and accepted and \
-                    sorted(om_res[0]) == sorted(np_res[0]) and sorted(om_res[1]) == sorted(np_res[1]):
-                # NumPy treats an Ellipsis that expands to zero axes as separating the advanced indices on
-                # its two sides (their broadcast dimension moves to the front); OpenMDAO drops it first
-                sig = 'ellipsis-of-zero-width-between-advanced-indices'
+        if zero_width_ellipsis(c['idx'], shape, flat, om_res, np_res):
+            sig = 'ellipsis-of-zero-width-between-advanced-indices'
     out = {'res': [om_res, np_res] if c.get('model', True) else '__none__', 'ok': ok, 'msg': msg,
            'sig': sig, 'kind': c.get('class', '')}
     return out
@@ -146,7 +151,7 @@ def handle_seq(c):
     flat = bool(c['flat'])
     idx = py_idx(c['idx'])
     kind = c['idx']['t']
-    res, ok, msg = [], True, ''
+    res, ok, msg, sig = [], True, '', ''
     try:
         ix = indexer(idx, flat_src=flat, try_slice=bool(c.get('try_slice')))
     except Exception as e:
@@ -161,9 +166,12 @@ def handle_seq(c):
         res.append(om_res)
         if isinstance(om_res, list) and np_res is not None and om_res != np_res and ok:
             ok = False
+            sig = 'reshape-history'
+            if zero_width_ellipsis(c['idx'], shape, flat, om_res, np_res):
+                sig = 'ellipsis-of-zero-width-between-advanced-indices'
             msg = 'indexer(%r, flat_src=%r%s) after set_src_shape history %r: derives %r for shape %r, NumPy gives %r' % (
                 idx, flat, ', try_slice=True' if c.get('try_slice') else '', c['shapes'][:k + 1], om_res, shape, np_res)
-    return {'res': res, 'ok': ok, 'msg': msg, 'sig': 'reshape-history' if not ok else '', 'kind': 'seq'}
+    return {'res': res, 'ok': ok, 'msg': msg, 'sig': sig, 'kind': 'seq'}
 
 
 if __name__ == '__main__':
